@@ -1267,7 +1267,8 @@ print(' '.join(str(r) for r in rows))
 # a variant class whose table of variants is a class-level dict: an existing message class registered again under its tag
 from cryptoparser.tls import subprotocol as S
 try:
-    S.TlsHandshakeMessageVariant.register_variant_parser(S.TlsHandshakeType.SERVER_HELLO_DONE, S.TlsHandshakeServerHelloDone)
+    # registered under the FIRST tag of the table, so that every later message class is reached through it
+    S.TlsHandshakeMessageVariant.register_variant_parser(S.TlsHandshakeType.CLIENT_HELLO, S.TlsHandshakeClientHello)
     print('registered')
 except Exception as e:
     print('register failed: ' + repr(e))
